@@ -110,12 +110,19 @@ func Validate(in Input) []Violation {
 	// collect runs from the trace
 	var runs []*run
 	open := map[string][]*run{}
+	last := map[string]*run{}
 	for _, e := range in.Trace {
 		switch e.Kind {
 		case "S":
 			r := &run{name: e.Name, start: e.Seq, end: -1, stage: -1}
 			runs = append(runs, r)
 			open[e.Name] = append(open[e.Name], r)
+			last[e.Name] = r
+		case "CX":
+			// the end of a conc child of the rule: a rule is not over before its children are
+			if r := last[e.Name]; r != nil && r.end >= 0 && e.Seq > r.end {
+				r.end = e.Seq
+			}
 		case "E", "F":
 			q := open[e.Name]
 			if len(q) == 0 {
